@@ -319,6 +319,28 @@ theorem C29_md5_argon2_entry (C : Crypto) (st : Store) (u resp salt p s : Bytes)
   rw [hr]
   simp [startsWith, argon2Tag, md5Tag, List.isPrefixOf]
 
+/-! ### the login step -/
+
+/-- the decision of a login depends on the user name, never on the requested database -/
+theorem C29_login_ignores_database (C : CryptoOps) (method : AuthMethod) (st : Store)
+    (user db1 db2 secret salt : Bytes) :
+    login C method st user db1 secret salt = login C method st user db2 secret salt := by
+  cases method <;> rfl
+
+/-- a password login succeeds only with the password the *user's* entry was created from; the
+    entry of the account named like the database is irrelevant -/
+theorem C29_login_password (C : Crypto) (st : Store) (user db secret salt p s : Bytes)
+    (h : getPassword st user = some (C.hash p s)) :
+    login C.toCryptoOps .password st user db secret salt = true ↔ secret = p :=
+  C29_cleartext_created C st user p s secret h
+
+/-- an MD5 login succeeds only for a user stored as `{MD5}p`, with a digest of that user's `p` -/
+theorem C29_login_md5 (C : CryptoOps) (st : Store) (user db resp salt : Bytes)
+    (h : login C .md5 st user db resp salt = true) :
+    ∃ p, getPassword st user = some (md5Tag ++ p) ∧
+      (resp = md5RespPrefix ++ digest p user salt ∨ resp = digest p user salt) :=
+  (C29_md5_iff_simple st user resp salt).mp h
+
 /-! ### non-vacuity: a `Crypto` exists, and stores satisfying the hypotheses exist -/
 
 /-- a toy instance (stores the password after the tag): the laws of `Crypto` are satisfiable -/
